@@ -58,11 +58,17 @@ def stratum(node):
             return "%s:%s=%s" % (t, type(node.lhs).__name__ + str(len(node.lhs.children)), rd)
         if isinstance(node, Loop):
             body = node.loop_body.children
-            depth, cur = 1, node
-            while len(cur.loop_body.children) == 1 and isinstance(cur.loop_body.children[0], Loop):
+
+            def shape(lp):
+                # kinds of start/stop/step (L literal, R reference, O other) of one loop
+                return "".join("L" if isinstance(e, Literal) else ("R" if type(e).__name__ == "Reference" else "O")
+                               for e in (lp.start_expr, lp.stop_expr, lp.step_expr))
+            depth, cur, shapes = 1, node, [shape(node)]
+            while len(cur.loop_body.children) == 1 and isinstance(cur.loop_body.children[0], Loop) and depth < 3:
                 depth, cur = depth + 1, cur.loop_body.children[0]
+                shapes.append(shape(cur))
             return "%s:d%d:n%d:%s:%s" % (t, depth, min(len(body), 3), type(body[0]).__name__ if body else "-",
-                                         type(node.step_expr).__name__)
+                                         ",".join(shapes))
         if isinstance(node, IfBlock):
             return t + (":else" if node.else_body else "")
         if isinstance(node, Literal):
